@@ -193,6 +193,20 @@ def run(ctx):
             if ok:
                 for c in lookups:
                     a = arg_syms(c)
+                    if c.is_("from_hash") and len(a) == 3:
+                        # hashbrown defines from_key_hashed_nocheck(hash, k) as from_hash(hash, |q| q == k): accepted when the
+                        # closure is exactly an equality test between the stored key and the key parameter
+                        cl = strip_sym(a[2])
+                        cf = u.fn(cl[5]) if cl[0] == "agg" and cl[1] == "closure" else None
+                        r_ = strip_sym(Sym(cf).local(0)) if cf is not None else None
+                        eq_ok = r_ is not None and r_[0] == "call" and isinstance(r_[1], str) and (r_[1].endswith("::eq") or path_is(r_[1], "PartialEq::eq") or path_is(r_[1], "Equivalent::equivalent")) and len(r_[2]) == 2
+                        if eq_ok:
+                            sides = [repr(x) for x in r_[2]]
+                            eq_ok = any("('arg', 1" in x and "capture" not in x for x in sides) and any("capture" in x and "('arg', 1" in x for x in sides)
+                        if not (eq_ok and is_hash(a[1])):
+                            ok, detail = False, "lookup through from_hash with a predicate that is not `stored key == key`"
+                            break
+                        continue
                     if not c.is_("from_key_hashed_nocheck"):
                         ok, detail = False, f"lookup through {callee_method_name(c)}"
                         break
@@ -336,7 +350,7 @@ def run(ctx):
         chk.ob("C06.d", f"{f.path} [truthful result]", ok, "returns true exactly on the Occupied edge, after remove_entry" if ok else "delete does not return `true` exactly when an entry was found and removed", f.loc())
     # retain passes the predicate through
     for k, f in fam["retain"].items():
-        rc = [c for c in f.body.calls() if c.is_("HashMap<K, V, S, A>::retain", "retain")]
+        rc = [c for c in nonforeign_calls(f) if c.is_("HashMap<K, V, S, A>::retain", "retain") and "hashbrown" in (c.resolved or "")]
         ok = len(rc) == 1
         if ok:
             clos = strip_sym(arg_syms(rc[0])[1])
@@ -344,7 +358,10 @@ def run(ctx):
             ok = False
             if cf is not None:
                 r = strip_sym(Sym(cf).local(0))
-                ok = sym_is_call(r, "FnMut::call_mut", "Fn::call", "FnOnce::call_once")
+                # the closure's verdict is the caller's predicate applied to (key, value), nothing else
+                ok = sym_is_call(r, "FnMut::call_mut", "Fn::call", "FnOnce::call_once") and "('arg', 1, 'f')" in repr(Sym(cf).local(0)) or (sym_is_call(r, "FnMut::call_mut", "Fn::call", "FnOnce::call_once") and rc[0].fn is f)
+            elif is_param(sym_through(clos), 1):
+                ok = True  # the caller's predicate itself is handed to retain
         chk.ob("C06.d", f"{f.path} [predicate un-negated]", ok, "retain keeps exactly the entries the caller's predicate accepts" if ok else "retain does not pass the caller's predicate through unchanged", f.loc())
     # handles = visit + clone
     for k, f in fam["handles"].items():
@@ -359,6 +376,25 @@ def run(ctx):
                 if len(insc) == 1:
                     a = [strip_sym(x) for x in [Sym(cf).operand(o) for o in insc[0].args]]
                     ok = sym_is_call(a[1], "Clone::clone") and is_param(sym_through(a[1][2][0]), 1) and sym_is_call(a[2], "Clone::clone") and is_param(sym_through(a[2][2][0]), 2)
+        if not vc:
+            # spelled out: for every subshard of this kind's table, under its read lock, insert (k.clone(), v.clone()) for
+            # every entry — two nested "once per element" iterations
+            from props.common import iteration_context
+
+            insc = [c for c in nonforeign_calls(f) if c.is_("HashMap<K, V, S>::insert", "insert") and "std::collections" in (c.resolved or "") or (c.is_("insert") and "hashbrown" in (c.resolved or "") and c.fn is not None and False)]
+            insc = insc or [c for c in nonforeign_calls(f) if callee_method_name(c) == "insert" and ("hash::map::HashMap" in (c.resolved or "") or "hashbrown::map::HashMap" in (c.resolved or ""))]
+            if len(insc) == 1:
+                a = [strip_sym(x) for x in arg_syms(insc[0])]
+                clones = len(a) == 3 and sym_is_call(a[1], "Clone::clone") and sym_is_call(a[2], "Clone::clone")
+                src1, why1 = iteration_context(insc[0])
+                locks = [c for c in nonforeign_calls(f) if c.is_("RwLock<T>::read")]
+                inner_ok = src1 is not None and any(sym_is_call(x, "RwLock<T>::read") for x in sym_walk(src1) if isinstance(x, tuple))
+                outer_ok = False
+                if len(locks) == 1:
+                    src2, why2 = iteration_context(locks[0])
+                    fp = field_path(src2) if src2 is not None else None
+                    outer_ok = bool(fp) and fp[0] == 0 and fp[1] == [f"{k}s"]
+                ok = clones and inner_ok and outer_ok
         chk.ob("C06.d", f"{f.path} [visit + clone]", ok, f"collects (k.clone(), v.clone()) for every entry visited by visit_{k}s" if ok else "handle listing is not visit + clone of every entry", f.loc())
     # visit iterates every shard under a read lock
     for k, f in fam["visit"].items():
